@@ -18,15 +18,16 @@ import Proofs.Modes
 import Proofs.Select
 import Proofs.SitesValid
 import Proofs.Ties
+import Proofs.TiesRun
 namespace Coma.Props
 open Coma Coma.Spec
 
 /-- every pair of every segment of a candidate joins real labels of the named maps -/
 theorem C01_labels_real (P : Params) (C : ChainCfg) (hP : GoodParams P) (ref qry : OMap) (peaks : List Int)
-    (rev : Bool) (it : Int) (hr : StrictAscending ref.positions) (hq : StrictAscending qry.positions)
+    (rev : Bool) (it : Int) (hr : Ascending ref.positions) (hq : Ascending qry.positions)
     (row : Row) (h : alignerAlign P C ref qry peaks rev it = .ok row) :
     ∀ p ∈ row.pairs, p.r ∈ ref.labels false ∧ p.q ∈ qry.labels rev :=
-  Coma.Proofs.alignerAlign_labels_real P C hP ref qry peaks rev it hr hq row h
+  Coma.Proofs.alignerAlign_labels_real_weak P C hP ref qry peaks rev it hr hq row h
 
 /-- inside one segment pairs are strictly ascending on both maps — also for molecules with COINCIDENT labels (label
     coordinates only weakly ascending, as a CMAP file may have them): of two labels of one molecule at one coordinate at
